@@ -19,6 +19,7 @@ func init() {
 		Assumptions: []string{"select chooses a ready case", "context.WithTimeout cancels at the deadline"},
 		Run:         runC09,
 		Controls: []Control{
+			{Name: "timeout-tested-as-canceled", File: "pkg/resource/value.go", Old: "\tif errors.Is(ctx.Err(), context.DeadlineExceeded) {\n\t\treturn nil, errors.New(\"bus.Send blocked for too long\")\n", New: "\tif errors.Is(ctx.Err(), context.Canceled) {\n\t\treturn nil, errors.New(\"bus.Send blocked for too long\")\n", Expect: "R09.4"},
 			{Name: "derived-request-drops-backpressure", File: "pkg/resource/collection.go", Old: "func (c *Collection) onUpdate(", New: "func derivedRequestForControl(rr *ReadRequest) *ReadRequest {\n\treturn &ReadRequest{ReadMask: rr.ReadMask, Include: rr.Include}\n}\n\nfunc (c *Collection) onUpdate(", Expect: "R09.8"},
 			{Name: "add-remove-delivered", File: "pkg/resource/backpressure.go", Old: "\t\tcase types.ChangeType_REMOVE:\n\t\t\treturn CollectionChange{}, false", New: "\t\tcase types.ChangeType_REMOVE:\n\t\t\treturn b, true", Expect: "R09.1"},
 			{Name: "remove-add-is-add", File: "pkg/resource/backpressure.go", Old: "\t\tif b.ChangeType != types.ChangeType_REMOVE {\n\t\t\tb.ChangeType = types.ChangeType_REPLACE\n\t\t}", New: "", Expect: "R09.1"},
@@ -486,6 +487,21 @@ func r094(c *an.Ctx) {
 			an.Instrs(set, func(in ssa.Instruction) {
 				call, ok := in.(*ssa.Call)
 				if !ok || an.CalleeName(call) != "errors.Is" || !an.Dominates(s, call) {
+					return
+				}
+				// what it is compared with is the deadline error: the context is cancelled by the deferred cancel only after
+				// this point, so a test for context.Canceled can never be true here
+				isDeadline := false
+				for _, a := range call.Call.Args {
+					for _, v := range an.Sources(a) {
+						if u, isU := v.(*ssa.UnOp); isU {
+							if g, isG := u.X.(*ssa.Global); isG && g.Pkg != nil && g.Pkg.Pkg.Path() == "context" && g.Name() == "DeadlineExceeded" {
+								isDeadline = true
+							}
+						}
+					}
+				}
+				if !isDeadline {
 					return
 				}
 				// true edge returns a non-nil error
